@@ -69,8 +69,9 @@ pub fn profile_for(prop: &str, variant: u64, thorough: bool) -> Profile {
             p.kinds = if variant % 4 == 0 { [2, 1, 0, 1, 2, 0, 0, 1, 14] } else { [4, 3, 1, 3, 6, 1, 1, 4, 0] };
             p.max_sources = 4;
             p.outside = [14, 9, 3, 3, 3, 24, 26, 1, 0, 0, 3, 2, 0];
-            p.incb = [6, 8, 4, 3, 3, 8, 0, 0, 0, 0, 1, 1, 0];
+            p.incb = [6, 8, 4, 3, 3, 8, 0, 0, 0, 0, 3, 1, 0];
             p.p_cb_ops = 45;
+            p.max_cb_ops = 4;
             p.p_dead_sel = 20;
             p.p_child_ret = 50;
             if variant % 4 == 0 {
@@ -291,13 +292,11 @@ fn gen_op(rng: &mut Rng, p: &Profile, incb: bool, depth: u32) -> Option<Op> {
             2 | 3 => Op::AdapterDrop(rng.below(4) as u8),
             _ => Op::AdapterIntoInner(rng.below(4) as u8),
         },
-        10 => {
-            if rng.chance(1, 2) {
-                Op::ProbeDead
-            } else {
-                Op::Reinsert(rng.below(4) as u8)
-            }
-        }
+        10 => match rng.below(5) {
+            0 | 1 => Op::ProbeDead,
+            2 => Op::Churn(*rng.pick(&[1u16, 3, 254, 255, 256, 257, 300, 511, 512])),
+            _ => Op::Reinsert(rng.below(4) as u8),
+        },
         11 => match rng.below(4) {
             0 => Op::DropPing(gen_live_sel(rng, p, incb)),
             1 => Op::ClonePing(gen_live_sel(rng, p, incb)),
@@ -363,7 +362,43 @@ pub fn gen_source(rng: &mut Rng, p: &Profile, depth: u32) -> SourceSpec {
     }
 }
 
+/// C01: a source whose event is already in the batch is removed by an earlier callback, its slot is
+/// reused k times within that callback and finally taken by a newcomer that has no cause of its own
+fn slot_reuse_scenario(rng: &mut Rng, p: &Profile) -> History {
+    let plain = |kind: Kind, ready: bool, prog: Vec<CbStep>| SourceSpec { kind, lifecycle: false, prog, fault: None, via_insert: false, bad_fd: None, ready_at_insert: ready };
+    let k = *rng.pick(&[1u16, 2, 3, 17, 255, 256, 257, 511, 512, 513]);
+    let newcomer = match rng.below(3) {
+        0 => Kind::Gen { fd: FdKind::Pipe, int: Int::Read, md: Md::Level },
+        1 => Kind::Gen { fd: FdKind::Socket, int: Int::Read, md: Md::Edge },
+        _ => Kind::Comp { n: 2, transient: false },
+    };
+    let victim = match rng.below(3) {
+        0 => Kind::Ping,
+        1 => Kind::Gen { fd: FdKind::Eventfd, int: Int::Read, md: Md::Level },
+        _ => Kind::Timer { dl: Dl::Past },
+    };
+    let killer_prog = vec![CbStep { ops: vec![Op::Remove(Sel::Other(0)), Op::Churn(k - 1), Op::Insert(Box::new(plain(newcomer, false, vec![])))], ret: Ret::Continue, tact: TAct::ToInstant(Dl::Far), child_ret: Ret::Continue }];
+    let killer = plain(Kind::Gen { fd: FdKind::Eventfd, int: Int::Read, md: Md::Level }, true, killer_prog);
+    let mut steps = Vec::new();
+    // either insertion order: which of the two is processed first is up to the poller
+    if rng.chance(1, 2) {
+        steps.push(Step::Op(Op::Insert(Box::new(plain(victim, true, vec![])))));
+        steps.push(Step::Op(Op::Insert(Box::new(killer))));
+    } else {
+        steps.push(Step::Op(Op::Insert(Box::new(killer))));
+        steps.push(Step::Op(Op::Insert(Box::new(plain(victim, true, vec![])))));
+    }
+    steps.push(Step::Sleep(1));
+    steps.push(Step::Dispatch(0));
+    steps.push(Step::Op(Op::ProbeDead));
+    steps.push(Step::Dispatch(0));
+    History { profile: p.name.clone(), steps, end: rng.below(2) as u8 }
+}
+
 pub fn gen_history(rng: &mut Rng, p: &Profile) -> History {
+    if p.name == "C01" && rng.chance(1, 10) {
+        return slot_reuse_scenario(rng, p);
+    }
     let n = rng.range(p.steps.0, p.steps.1);
     let mut steps = Vec::new();
     let mut inserted = 0usize;
